@@ -179,6 +179,11 @@ class Models:
     # ------------------------------------------------------------------ calls
     def call_external(self, it, dotted, args, kwargs, fr, node):
         fn = self.ext.get(dotted)
+        if it.ctx.policy.get(dotted) == "any":
+            # declared by the contract: the value this library call returns does not matter to the obligation - an
+            # arbitrary opaque value (a fresh symbol), over-approximating whatever the library returns
+            self.note(it, "opaque:%s returns an arbitrary opaque value (declared by the contract)" % dotted)
+            return SOpaque("AnyVal", it.run.fresh(it.ctx.sort("AnyVal"), "any"))
         if fn is None:
             # try aliases: numpy.core..., scipy.stats.norm.cdf etc. are registered with their import names
             raise Unsupported("no model for external function %s" % dotted, node)
@@ -523,6 +528,13 @@ class Models:
                 r = h(self, it, v, node)
                 if r is not NotImplemented:
                     return r
+            if tag(v) == "range" and v[3] == 1 and any(is_z3(x) for x in v[1:3]):
+                # list(range(a, b)) with symbolic bounds: the sequence a, a + 1, ..., b - 1 (exact)
+                a, b = b2i(z(v[1])), b2i(z(v[2]))
+                i = z3.Int("i!rng%d" % it.run.fresh_n)
+                it.run.fresh_n += 1
+                n = z3.If(b - a >= 0, b - a, z3.IntVal(0))
+                return it.run.alloc(HSeq(z3.Lambda([i], a + i), z3.IntVal(0), z3.simplify(n), "Int"))
             return it.run.alloc(HList(it.iter_concrete(v, node)))
         E["builtins.list"] = b_list
 
